@@ -999,7 +999,7 @@ def _run(ctx):
             if len(gold) < 3:
                 raise MachineryError("only %d golden observations found under %s/tests/cmds" % (len(gold), REPO))
             cases, _sp = trace_selftests(ctx, env, table, world, tier)
-            ntr = (150 if ctx.quick else 1500) if want(ctx, "traces") else 0
+            ntr = (150 if ctx.quick else 400) if want(ctx, "traces") else 0
             if ntr and not names:
                 raise MachineryError("the coinc export (opcode names) is needed by the recorder")
             obs = traces_stage(ctx, fnd, env, table, world, names, tier, ntr, truth=(gold + [c[1] for c in cases], special))
